@@ -60,10 +60,12 @@ def main(tier: str) -> int:
                      "nunavut.jinja.extensions.JinjaAssert.parse / _do_assert", "nunavut.jinja.extensions.UseQuery.parse / _use_query / _use_nquery / _use_query_common"]
     M = "h_C19"
     n = "3" if tier == "quick" else "4"
-    T = 400 if tier == "quick" else 2400
+    T = 1200 if tier == "quick" else 2400    # upper bound only; measured walls are in evidence (condition_walls_s)
     conds = [Cond(M, "marker_prefixes_every_nonempty_line", T, 120, dict(C19_T=p, C19_LEN=n)) for p in PLACEMENTS]
     for o in ORDINARY:
         conds.append(Cond(M, "ordinary_template_renders_as_upstream", T, 120, dict(C19_ORD=o, C19_LEN=("2" if tier == "quick" else "3"))))
+    for w in range(4):
+        conds.append(Cond(M, "overlay_environment_renders_as_upstream", T, 120, dict(C19_OVW=str(w))))
     conds.append(Cond(M, "assert_tag_is_a_conditional", T, 60))
     conds.append(Cond(M, "use_query_tags_are_conditionals", T, 60))
     run_conditions(rep, conds)
